@@ -405,7 +405,13 @@ pub fn process<I: BufRead, O: Write>(
                 // Is there a string start before that point ?
                 let s2 = s.next().unwrap();
                 if !s2.starts_with("#include") && !asm {
-                    if let Some((left, _)) = s2.split_once('"') {
+                    // (a double quote that is a character constant, '"' or '\"', starts nothing)
+                    let string_start = s2.match_indices('"').map(|(i, _)| i).find(|i| {
+                        let before = &s2[..*i];
+                        let after = &s2[*i + 1..];
+                        !(after.starts_with('\'') && (before.ends_with('\'') || before.ends_with("'\\")))
+                    });
+                    if let Some(left) = string_start.map(|i| &s2[..i]) {
                         // We have a string start
                         // Let's find the end of the string
                         let mut done = false;
